@@ -21,3 +21,8 @@ package pubmessage
 //@ func NewMessage
 //@   ensures ret != nil && ret.pktInner == pktInner && ret.peerID == peerID
 //@   fresh ret
+
+// A locally built message: the inner message always, the signed packet unless signing failed.
+//@ func NewPubMessage
+//@   noframe
+//@   ensures ret1 != nil && (ret2 == nil ==> ret0 != nil)
